@@ -4738,6 +4738,12 @@ class Entity(object, metaclass=EntityMeta):
                     else: attr.__set__(obj, val, undo_funcs)
             except:
                 for undo_func in reversed(undo_funcs): undo_func()
+                if obj._status_ == 'created':  # was registered by _get_from_identity_map_
+                    pk_index = cache_indexes[entity._pk_attrs_]
+                    if pkval is not None and pk_index.get(pkval) is obj: del pk_index[pkval]
+                    cache.objects.discard(obj)
+                    cache.for_update.discard(obj)
+                    obj._status_ = obj._session_cache_ = None
                 raise
         if pkval is not None: cache_indexes[entity._pk_attrs_][pkval] = obj
         for key, vals in indexes_update.items(): cache_indexes[key][vals] = obj
